@@ -3,7 +3,7 @@ from ..cfg import cfg_of
 from ..defuse import du_of, walk, peel, callee_name, fmt
 from ..conds import lits_of, decode
 from ..callgraph import cg_of
-from ..common import arg_term, contains_call, call_named, field_path, assigns_of_return
+from ..common import arg_term, contains_call, call_named, field_path, assigns_of_return, iter_chain
 
 TEXT = ("W1: in the function that recomputes the leaf / winner caches, inserting a candidate into the leaf set and "
         "updating the running best are edge-dominated by `!is_resolved()`, `!parents.contains(candidate)` (parent set "
@@ -455,10 +455,10 @@ def check_validate(v, facts, res):
                 if cl:
                     cb = facts.body(cl[0][1])
                     rt = peel(du_of(cb).local_term(0, 12))
-                    if rt[0] == "call" and callee_name(rt) == "gt" and "revision::Revision" in (rt[4].self_ty or rt[4].full) and \
+                    if rt[0] == "call" and callee_name(rt) == "gt" and _on_revisions(rt[4]) and \
                             any(x[0] == "upvar" for x in walk(rt[2][0])) and any(x[0] == "param" and x[1] == 2 for x in walk(rt[2][1])):
                         ok = True
-            if l.kind == "call" and callee_name(l.term) == "gt" and l.truth is True and "revision::Revision" in (l.term[4].self_ty or l.term[4].full):
+            if l.kind == "call" and callee_name(l.term) == "gt" and l.truth is True and _on_revisions(l.term[4]):
                 ok = True
         res.instance("W2", "%s: best replaced only when empty or candidate > best (Revision's order): %s" % (v.path, ok), v.loc(line))
         if not ok:
@@ -488,6 +488,24 @@ def check_validate(v, facts, res):
     res.instance("W1", "%s iterates every recorded revision: %s" % (v.path, whole), v.loc())
     if not whole:
         res.violation("W1", "%s|not-all-revisions" % v.path, "%s does not iterate over all keys of the revision map" % v.path, v.loc())
+
+
+def _on_revisions(c):
+    """the comparison is Revision's own order: the compared type is Revision (behind references), not a tuple / key derived from it"""
+    if c is None:
+        return False
+    st = c.self_ty
+    if not st:
+        full = c.full or ""
+        st = full[1:].split(" as ")[0] if full.startswith("<") else ""
+    st = st.strip()
+    while st.startswith("&"):
+        st = st[1:].strip()
+        if st.startswith("mut "):
+            st = st[4:].strip()
+        if st.startswith("'"):
+            st = st.split(" ", 1)[1].strip() if " " in st else st
+    return st == "revision::Revision"
 
 
 def _top_closure(t):
@@ -588,13 +606,14 @@ def _check_validate_pipeline(v, facts, res):
                     mx = [y for y in walk(wt) if y[0] == "call" and callee_name(y) in ("reduce", "max", "max_by", "fold")]
                     by_order = False
                     for y in mx:
-                        if callee_name(y) == "max":
-                            by_order = True
+                        if callee_name(y) == "max" and not ({callee_name(c_) for c_ in iter_chain(y[2][0])} &
+                                                            {"map", "filter_map", "flat_map", "scan", "zip", "enumerate", "map_while"}):
+                            by_order = True     # Iterator::max over the revisions themselves (no re-keying adaptor in between)
                         for z in (walk(y[2][1]) if len(y[2]) > 1 else []):
                             if z[0] == "closure":
                                 cb = facts.body(z[1])
                                 if cb is not None and any(tt.callee is not None and tt.callee.name in ("gt", "lt", "ge", "le", "cmp", "max") and
-                                                          "revision::Revision" in ((tt.callee.self_ty or "") + (tt.callee.full or "")) for _, tt in cb.calls()):
+                                                          _on_revisions(tt.callee) for _, tt in cb.calls()):
                                     by_order = True
                     w_ok = same and bool(mx) and by_order
                     res.instance("W2", "%s (pipeline form): winner = maximum (Revision's order: %s) over the collection the leaf set is filled from (%s)" % (v.path, by_order, same), v.loc(st.line))
